@@ -180,9 +180,51 @@ impl Gen {
         if refchess::valid(&b) { Some(b) } else { None }
     }
 
+    /// en passant: my pawn on its 5th rank next to an enemy pawn that has just advanced two squares (every file, the edge
+    /// files included), the capture sometimes illegal because of the classic pin along the rank or a diagonal
+    pub fn ep_family(&self, rng: &mut Rng) -> Option<Board> {
+        let side = if rng.chance(1, 2) { Color::White } else { Color::Black };
+        let opp = if side == Color::White { Color::Black } else { Color::White };
+        let mut occ = [None::<(Color, Piece)>; 64];
+        let r5 = if side == Color::White { 4usize } else { 3 };
+        let ef = *rng.pick(&[0usize, 7, 0, 7, 1, 2, 3, 4, 5, 6]);           // file of the pawn that has just double-pushed
+        let mf = if ef == 0 { 1 } else if ef == 7 { 6 } else if rng.chance(1, 2) { ef - 1 } else { ef + 1 };
+        occ[r5 * 8 + ef] = Some((opp, Piece::Pawn));
+        occ[r5 * 8 + mf] = Some((side, Piece::Pawn));
+        if rng.chance(1, 4) { let of = if mf > ef { ef.wrapping_sub(1) } else { ef + 1 }; if of < 8 && occ[r5 * 8 + of].is_none() { occ[r5 * 8 + of] = Some((side, Piece::Pawn)); } }
+        let ep = (if side == Color::White { 5 * 8 + ef } else { 2 * 8 + ef }) as u8;
+        // kings: mine often on the 5th rank (rank pin) or anywhere
+        let mk = if rng.chance(1, 3) { r5 * 8 + rng.below(8) as usize } else { rng.below(64) as usize };
+        if occ[mk].is_some() { return None; }
+        occ[mk] = Some((side, Piece::King));
+        let mut ok = rng.below(64) as usize;
+        let mut tries = 0;
+        while occ[ok].is_some() || ((ok / 8) as i32 - (mk / 8) as i32).abs().max(((ok % 8) as i32 - (mk % 8) as i32).abs()) < 2 { ok = rng.below(64) as usize; tries += 1; if tries > 100 { return None; } }
+        occ[ok] = Some((opp, Piece::King));
+        if rng.chance(1, 2) { let s = r5 * 8 + rng.below(8) as usize; if occ[s].is_none() { occ[s] = Some((opp, *rng.pick(&[Piece::Rook, Piece::Queen]))); } }
+        for _ in 0..rng.below(6) {
+            let s = rng.below(64) as usize;
+            if occ[s].is_some() { continue; }
+            let p = *rng.pick(&[Piece::Pawn, Piece::Pawn, Piece::Knight, Piece::Bishop, Piece::Rook, Piece::Queen]);
+            if p == Piece::Pawn && (s / 8 == 0 || s / 8 == 7) { continue; }
+            // keep the squares behind the double-pushed pawn empty (it has just passed them)
+            if s as u8 == ep || s == (if side == Color::White { 6 * 8 + ef } else { 8 + ef }) { continue; }
+            occ[s] = Some((if rng.chance(1, 2) { side } else { opp }, p));
+        }
+        let mut pcs = [0u64; 6];
+        let (mut white, mut black) = (0u64, 0u64);
+        for s in 0..64 { if let Some((c, p)) = occ[s] { pcs[p.index()] |= 1 << s; if c == Color::White { white |= 1 << s } else { black |= 1 << s } } }
+        let b = board_from_raw(pcs, white, black, side, 0, Some(ep), rng.below(100) as u32, 1 + rng.below(200) as u32)?;
+        if refchess::valid(&b) { Some(b) } else { None }
+    }
+
     /// a valid position from the mixed stream
     pub fn valid_position(&self, rng: &mut Rng, out: &mut Out) -> Board {
         loop {
+            if rng.chance(1, 10) {
+                if let Some(b) = self.ep_family(rng) { out.count("pos_ep_family"); return b; }
+                continue;
+            }
             if rng.chance(1, 6) {
                 if let Some(b) = self.pin_family(rng) { out.count("pos_pin_family"); return b; }
                 continue;
